@@ -14,7 +14,7 @@
 use serde::de::{self, DeserializeSeed, IntoDeserializer, Visitor};
 use serde::ser;
 
-pub const NTOK: usize = 40;
+pub const NTOK: usize = 24;
 pub const NBYTES: usize = 64;
 
 /// Unit error: messages are dropped (formatting them dominates CBMC's run time).
